@@ -1,15 +1,23 @@
 ---- MODULE BreakerOps ----
 (* Operation histories for the C10 driver: interleavings of request starts and finishes over a few
-   concurrent requests, each with the way it will end.  TLC enumerates them (one CASE per complete
-   history); the driver realises each on clusters with different thresholds. *)
+   concurrent requests, each with the way it will end, and of cluster configuration updates (Breaker!Update)
+   arriving at any point between them.  An update names the cluster-manager entry it goes through
+   (Kinds: "primary" = AddOrUpdatePrimaryCluster, the new cluster inherits the host objects; "andhosts" =
+   AddOrUpdateClusterAndHost with the same addresses, new host objects are built) and what it does to the
+   thresholds (Tos: "same", "up", "down" between non-zero values; "off" = every threshold to 0, "on" = back to the
+   cluster's configured non-zero ones).  TLC enumerates them (one CASE per complete history; with MinUpd > 0 only
+   histories with at least that many updates); the driver realises each on clusters with different thresholds. *)
 EXTENDS Integers, Sequences, FiniteSets, TLC, Json
-CONSTANTS N, Hows
-VARIABLES h, started, open
-Init == h = <<>> /\ started = 0 /\ open = {}
+CONSTANTS N, Hows, MaxUpd, MinUpd, Kinds, Tos
+VARIABLES h, started, open, upd
+Init == h = <<>> /\ started = 0 /\ open = {} /\ upd = 0
 Start == /\ started < N
          /\ \E how \in Hows : h' = Append(h, [op |-> "start", r |-> started + 1, how |-> how])
-         /\ started' = started + 1 /\ open' = open \cup {started + 1}
-Finish == \E r \in open : h' = Append(h, [op |-> "finish", r |-> r]) /\ open' = open \ {r} /\ UNCHANGED started
-Next == Start \/ Finish
-Emit == (started = N /\ open = {}) => PrintT(<<"CASE", ToJson([ops |-> h])>>)
+         /\ started' = started + 1 /\ open' = open \cup {started + 1} /\ UNCHANGED upd
+Finish == \E r \in open : h' = Append(h, [op |-> "finish", r |-> r]) /\ open' = open \ {r} /\ UNCHANGED <<started, upd>>
+Update == /\ upd < MaxUpd /\ upd' = upd + 1
+          /\ \E k \in Kinds, t \in Tos : h' = Append(h, [op |-> "update", kind |-> k, to |-> t])
+          /\ UNCHANGED <<started, open>>
+Next == Start \/ Finish \/ Update
+Emit == (started = N /\ open = {} /\ upd >= MinUpd) => PrintT(<<"CASE", ToJson([ops |-> h])>>)
 ====
